@@ -1,7 +1,7 @@
 (* statement pins and axiom audit for C12 (compiled on every check) *)
 From ChiaV.Base Require Import Bytes Sha256.
 From ChiaV.Gen Require Import Mset.
-From ChiaV.Merkle Require Import MerkleSpec MerkleSet MerkleTree MerkleProofSpec MerkleExamples.
+From ChiaV.Merkle Require Import MerkleSpec MerkleSet MerkleTree MerkleProofSpec MerkleExamples MerkleDepth.
 From ChiaV.Props Require Import C12.
 Open Scope N_scope.
 
@@ -36,3 +36,6 @@ Check C12_example_member : ex_run ex_a = Some (true, true).
 Print Assumptions C12_example_member.
 Check C12_example_non_member : ex_run ex_x = Some (false, false).
 Print Assumptions C12_example_non_member.
+Check C12_depth_never_overflows : forall (H : bytes -> bytes) S x, Forall leaf32 S ->
+  exists t, from_leafs H S = Ok t /\ generate_proof_chk t x = generate_proof t x.
+Print Assumptions C12_depth_never_overflows.
